@@ -22,6 +22,12 @@ impl<F: Fn(&siginfo_t) + Sync + Send + 'static> From<F> for Arc<Action> {
 #[verifier::external_body]
 pub struct ExIoError(std::io::Error);
 
+/// ghost events whose ORDER the registration contract talks about (opaque; built by the two uninterpreted functions):
+/// a publication through a WriteGuard (`store_ev(value)`) and the sigaction call of `Slot::new` (`install_ev(signal)`)
+#[verifier::external_body] pub struct REv { _p: u8 }
+pub uninterp spec fn store_ev<T>(v: T) -> REv;
+pub uninterp spec fn install_ev(signal: c_int) -> REv;
+
 #[verifier::external_body]
 #[verifier::reject_recursive_types(T)]
 pub struct HalfLock<T> { _p: core::marker::PhantomData<T> }
@@ -35,8 +41,9 @@ impl<'a, T> WriteGuard<'a, T> {
     /// number of publications through this guard
     pub uninterp spec fn stores(&self) -> nat;
     #[verifier::external_body]
-    pub fn store(&mut self, val: T)
-        ensures final(self).cur() == val, final(self).stores() == old(self).stores() + 1
+    pub fn store(&mut self, val: T, tr: &mut Ghost<Seq<REv>>)
+        ensures final(self).cur() == val, final(self).stores() == old(self).stores() + 1,
+            final(tr)@ == old(tr)@.push(store_ev(val))
     { unimplemented!() }
 }
 impl<'a, T> Deref for WriteGuard<'a, T> {
